@@ -60,6 +60,7 @@ pub fn strategy(k: FloatKind, rx: Radices, ec: u8) -> BoxedStrategy<Case> {
         5 => gen::grammar_text(rx, b'.', ec),
         3 => gen::fastpath_text(k, rx, b'.', ec),
         1 => gen::range_edge_text(k, rx, b'.', ec),
+        1 => gen::beyond_range_text(k, rx, b'.', ec),
     ];
     (text, any::<u16>()).prop_map(|((text, class), j)| Case { text, class, junk: JUNK[gen::pick(j, JUNK.len())] }).boxed()
 }
